@@ -194,8 +194,12 @@ def _fit_case(spec, ctx):
             ctx.check(same, 'edge.copula-is-selected-one', 'C17:edge-copula-not-selection-on-its-inputs' + suffix,
                       lambda: dict(we, edge_copula=[e.name.name, e.theta], selected=[sel.copula_type.name, sel.theta]))
             all_edges_ok &= bool(same)
-            in_record = any(r[1] == e.name and (r[2] == e.theta) for r in recorded)
-            ctx.check(in_record, 'edge.copula-was-recorded', 'C17:edge-copula-not-among-recorded-selections', we)
+            # evidence only: how the fit reached select_copula is an implementation choice, the deciding oracle
+            # is the re-selection above
+            if any(r[1] == e.name and (r[2] == e.theta) for r in recorded):
+                ctx.ok('edge.copula-was-recorded')
+            else:
+                ctx.note('edge copula not among the selections recorded on copulas.bivariate.select_copula')
             # (b) the attached pseudo-observations are the h-functions of that copula on those inputs
             cop = _copula(e.name, e.theta)
             okh, hs = ctx.call(lambda: (_h(cop, xL, xR), _h(cop, xR, xL)))
